@@ -34,6 +34,7 @@ import (
 	"context"
 	"fmt"
 	"math/rand/v2"
+	"net"
 	"os"
 	"strings"
 	"time"
@@ -155,6 +156,21 @@ func newFullRun(r *vlib.Run, c fullCase) (*fullRun, error) {
 	add(tld, "half.test.", "half", 2)
 	add(tld, "dead.test.", "refused", 2) // starts as REFUSED (fast), switched to drop with the delegation cached
 	add(ok.zone, "bad.ok.test.", "refused", 2)
+	if c.Spec.Scenario == "client" {
+		// gl.test.: delegated WITHOUT glue to a name server named in ok.test., so
+		// resolving anything in it first needs that host's address (a required
+		// sub-resolution the client's departure can interrupt)
+		g1 := u.AddServer("gl1")
+		z := u.AddZone(zm.Spec{Apex: "gl.test.", NSHosts: []string{"nsgl.ok.test."}}, g1)
+		u.Delegate(tld, z, authsim.DelegOpts{NS: []zm.NSHost{{Name: "nsgl.ok.test."}}})
+		for _, a := range g1.Addrs {
+			ok.zone.AddAddr("nsgl.ok.test.", net.IP(a.AsSlice()), 300)
+		}
+		for i := 0; i < 4; i++ {
+			z.AddMarked(fmt.Sprintf("h%d.gl.test.", i), dns.TypeA, 300)
+		}
+		f.zones["gl.test."] = &fullZone{apex: "gl.test.", servers: []*authsim.Server{g1}, zone: z, mode: "honest"}
+	}
 	if c.Spec.Scenario == "enrich" {
 		// v4-only glue: the resolver will try to learn the NS hosts' AAAA in the
 		// background (optional enrichment), and that lookup fails at every server
@@ -302,7 +318,10 @@ func (f *fullRun) taintedAbove(name string) bool {
 type qmods struct {
 	ctx   context.Context
 	local string // request-local cause this request is subjected to ("" = none)
-	proto string
+	// localIf (optional) decides from the observed reply whether the cause
+	// really struck this request; otherwise the request is an ordinary one
+	localIf func(fout) bool
+	proto   string
 }
 
 func (f *fullRun) key(name string, qtype uint16, cd bool) qkey {
@@ -347,6 +366,12 @@ func (f *fullRun) Q(tag, client, name string, qtype uint16, cd bool, mods qmods)
 	}
 	pk := f.u.Log.Since(from)
 	out := fout{Packets: len(pk), Wall: wall, MustReach: mustReach}
+	own := 0 // packets asking for the name itself or (qname minimisation, DS/DNSKEY) an ancestor
+	for _, p := range pk {
+		if dns.IsSubDomain(p.QNameL, k.Name) {
+			own++
+		}
+	}
 	if len(replies) > 0 && replies[0] != nil {
 		m := replies[0]
 		out.HasReply, out.Rcode = true, m.Rcode
@@ -471,7 +496,7 @@ func (f *fullRun) Q(tag, client, name string, qtype uint16, cd bool, mods qmods)
 
 	// model update from what was observed at the authorities
 	switch {
-	case mods.local != "" && !(out.HasReply && out.Rcode != dns.RcodeServerFailure):
+	case mods.local != "" && !(out.HasReply && out.Rcode != dns.RcodeServerFailure) && (mods.localIf == nil || mods.localIf(out)):
 		f.m.local[k] = mods.local
 		f.locals[k] = mods.local
 		r.Count("full_local_injected_"+mods.local, 1)
@@ -504,7 +529,7 @@ func (f *fullRun) Q(tag, client, name string, qtype uint16, cd bool, mods qmods)
 				r.Count("full_zone_failure_mode_"+f.zones[z].mode, 1)
 			}
 		}
-	case out.Packets > 0 && out.HasReply && (out.Rcode == dns.RcodeSuccess || out.Rcode == dns.RcodeNameError):
+	case own > 0 && out.HasReply && (out.Rcode == dns.RcodeSuccess || out.Rcode == dns.RcodeNameError):
 		if n := f.m.useful(k); n > 0 {
 			r.Count("full_useful_answers_resetting_state", 1)
 		}
@@ -796,6 +821,50 @@ func (f *fullRun) scenarioClient() {
 		f.Q("local-followup", f.client(), name, qt, false, qmods{})
 		f.Q("local-sibling", f.client(), f.fresh("ok.test."), dns.TypeA, false, qmods{})
 	}
+
+	// The client leaves while the resolver is still finding the address of the
+	// only name server of a glueless delegation: "no reachable authority for
+	// gl.test." is then this client's problem, not a fact about gl.test.
+	g := authsim.NewGate()
+	ok.servers[0].ClearScript(false)
+	ok.servers[0].On("nsgl.ok.test.", 0, authsim.Honest().Gated(g))
+	ctx, cancel := context.WithCancel(context.Background())
+	stop := make(chan struct{})
+	go func() {
+		t := time.NewTicker(200 * time.Microsecond)
+		defer t.Stop()
+		for {
+			select {
+			case <-stop:
+				return
+			case <-t.C:
+				if g.Waiting() > 0 {
+					cancel()
+					return
+				}
+			}
+		}
+	}()
+	f.zlocals["gl.test."] = "cancel"
+	f.Q("local-cancel-glueless", f.client(), "h0.gl.test.", dns.TypeA, false, qmods{ctx: ctx, local: "cancel", proto: "tcp"})
+	close(stop)
+	cancel()
+	if g.Waiting() > 0 {
+		f.r.Count("full_client_left_during_ns_address_lookup", 1)
+	}
+	g.Release()
+	ok.servers[0].ClearScript(false)
+	if f.dead {
+		return
+	}
+	if !f.rs.Quiesce(15 * time.Second) {
+		f.r.Inconclusive(fmt.Sprintf("full case %d: pipeline did not quiesce after the client left", f.c.Index))
+		f.dead = true
+		return
+	}
+	f.checkState(len(f.c.Ops)-1, "after-glueless-cancel")
+	f.Q("local-followup", f.client(), "h0.gl.test.", dns.TypeA, false, qmods{})
+	f.Q("local-sibling", f.client(), "h1.gl.test.", dns.TypeA, false, qmods{})
 }
 
 // scenarioShed: every in-flight slot (global pool or the zone's quota) is
@@ -927,11 +996,12 @@ func (f *fullRun) scenarioEnforce() {
 	for i, name := range []string{"h0.ok.test.", "h1.half.test.", "h2.ok.test.", "h3.bad.ok.test."} {
 		_ = i
 		qt := dns.TypeA
-		out := f.Q("local-budget", f.client(), name, qt, false, qmods{local: "budget"})
-		if !(out.HasReply && out.Rcode == dns.RcodeServerFailure && strings.Contains(out.EDEText, "budget")) {
-			// the budget was enough (or the failure is not the budget's): not a local failure after all
-			delete(f.m.local, f.key(name, qt, false))
-			delete(f.locals, f.key(name, qt, false))
+		budget := func(o fout) bool {
+			return o.HasReply && o.Rcode == dns.RcodeServerFailure && strings.Contains(o.EDEText, "budget")
+		}
+		out := f.Q("local-budget", f.client(), name, qt, false, qmods{local: "budget", localIf: budget})
+		if !budget(out) {
+			// the budget was enough, or the failure is the authorities' own
 			f.r.Count("full_budget_not_exhausted", 1)
 			continue
 		}
@@ -1053,7 +1123,7 @@ func fullSpecFor(r *vlib.Run, i int) fullSpec {
 }
 
 func runFullChild(r *vlib.Run) {
-	n := r.N(9, 270)
+	n := r.N(9, 360)
 	for i := 0; i < n; i++ {
 		runFullCase(r, fullCase{Kind: "full", Index: i, Spec: fullSpecFor(r, i)})
 		r.Progress("full case %d/%d", i+1, n)
